@@ -58,6 +58,8 @@ def render(ops):
             lines.append("PRINT #%d, %s" % (o["n"], q(o["text"])))
         elif k == "printsemi":
             lines.append("PRINT #%d, %s;" % (o["n"], q(o["text"])))
+        elif k == "printnl":
+            lines.append("PRINT #%d," % o["n"])
         elif k == "lineinput":
             lines += ["LINE INPUT #%d, L$" % o["n"], 'PRINT "[" + L$ + "]"']
         elif k == "input":
@@ -264,6 +266,29 @@ def gen(tier, rng):
                     kind = reader if reader != "mixed" else rng.choice(["lineinput", "input"])
                     r += [O(kind, n=2), O("eof", n=2)]
                 hs.append(("readback-blanks", w + r, ""))
+    # (a2b) every order of up to four PRINT # statements that end in a semicolon, have no items at all, or are ordinary, on
+    # one file and alternating between two files: a pending line is ended by the next statement that ends a line, no earlier
+    import itertools as _it
+    kinds3 = ("print", "printsemi", "printnl")
+    for n in (2, 3, 4):
+        for seq in _it.product(kinds3, repeat=n):
+            if "printsemi" not in seq and "printnl" not in seq:
+                continue
+            if n == 4 and rng.random() < 0.5:
+                continue
+            for two in (False, True):
+                w = [O("open", n=1, name="A", mode="output")] + ([O("open", n=3, name="B", mode="output")] if two else [])
+                for j, kd in enumerate(seq):
+                    fn_ = 3 if (two and j % 2 == 1) else 1
+                    w.append(O(kd, n=fn_, text=S("t%d" % j)) if kd != "printnl" else O("printnl", n=fn_))
+                w += [O("close", n=1)] + ([O("close", n=3)] if two else [])
+                r = []
+                for nm_ in (("A", "B") if two else ("A",)):
+                    r += [O("open", n=2, name=nm_, mode="input"), O("eof", n=2)]
+                    for j in range(n + 1):
+                        r += [O("lineinput", n=2), O("eof", n=2)]
+                    r.append(O("close", n=2))
+                hs.append(("print-pending", w + r, ""))
     # (a3) line ends that PRINT # does not write itself: bare LF, bare CR, mixtures, empty lines of each kind
     eols = {"lf": [10], "cr": [13], "crlf": [13, 10]}
     bodies = []
